@@ -150,7 +150,7 @@ class Ctx:
 
     # ------------------------------------------------------------------ TLC
     def tlc(self, module, cfg_text, env=None, workers=16, simulate=None, depth=None,
-            coverage=False, timeout=1500, expect_fail=False, extra=None, heap='8g',
+            coverage=False, timeout=900, expect_fail=False, extra=None, heap='8g',
             deadlock=True, name=None, on_json_batch=None, batch=4000):
         """Run TLC on specs/<module>.tla with the given cfg text. Returns TlcResult."""
         tag = name or module
@@ -259,6 +259,7 @@ class Ctx:
         if expect_violation:
             ok = (r.rc != 0 and ('Invariant %s is violated' % expect_violation in r.stdout or
                                  'Action property %s is violated' % expect_violation in r.stdout
+                                 or ('invariant of %s is equal to FALSE' % expect_violation) in r.stdout
                                  or ('property %s' % expect_violation) in r.stdout))
             rec['result'] = 'mutant rejected' if ok else 'MUTANT ACCEPTED'
             self.mc_results.append(rec)
